@@ -535,8 +535,93 @@ func min2(a, b int) int {
 	return b
 }
 
+type c13KRow struct {
+	K interface{}
+	V string
+}
+type c13KRoot struct {
+	L []*c13KRow
+}
+
+// keyed access (load, Find by key, read, delete, walk) to a list whose key is of every kind of type, on the map-,
+// slice- and struct-backed nodes: refusing a field type is an answer, a panic is not
+func c13keyTypes(c *core.Ctx) {
+	for _, kt := range []struct{ typ, k1, k2, find string }{
+		{"union { type int32; type string; }", `1`, `"x"`, "l=x"},
+		{"bits { bit a; bit b; }", `"a"`, `"a b"`, "l=a%20b"},
+		{"binary;", `"AQI="`, `"AwQ="`, "l=AwQ%3D"},
+		{"enumeration { enum one; enum two; }", `"one"`, `"two"`, "l=two"},
+		{"boolean;", `true`, `false`, "l=false"},
+		{"decimal64 { fraction-digits 2; }", `1.5`, `2.25`, "l=2.25"},
+		{"identityref { base b; }", `"i1"`, `"i2"`, "l=i2"},
+		{"uint64;", `1`, `18446744073709551615`, "l=18446744073709551615"},
+		{"empty;", `[null]`, `[null]`, "l="},
+		{"string;", `""`, `"a/b"`, "l="},
+	} {
+		y := `module k { namespace "urn:k"; prefix k; revision 2020-01-01; identity b; identity i1 { base b; } identity i2 { base b; } list l { key k; leaf k { type ` + kt.typ + ` } leaf v { type string; } } }`
+		m, err := parser.LoadModuleFromString(nil, y)
+		if err != nil {
+			c.Violation(core.Replay{Kind: "harness", Summary: "c13keyTypes module: " + err.Error(), NoInputFound: true})
+			return
+		}
+		for _, doc := range []string{`{"l":[{"k":` + kt.k1 + `,"v":"1"},{"k":` + kt.k2 + `,"v":"2"}]}`, `{"l":[{"v":"nokey"},{"k":` + kt.k2 + `,"v":"2"}]}`} {
+			for _, be := range []string{"node-map", "reflect-map", "node-struct", "reflect-struct"} {
+				var steps []string
+				e := safeDo(func() error {
+					var root node.Node
+					switch be {
+					case "node-map":
+						root = &nodeutil.Node{Object: map[string]interface{}{}}
+					case "reflect-map":
+						root = nodeutil.ReflectChild(map[string]interface{}{})
+					case "node-struct":
+						root = &nodeutil.Node{Object: &c13KRoot{}}
+					case "reflect-struct":
+						root = nodeutil.ReflectChild(&c13KRoot{})
+					}
+					b := node.NewBrowser(m, root)
+					src, err := nodeutil.ReadJSON(doc)
+					if err != nil {
+						return nil
+					}
+					steps = append(steps, "load")
+					if err := b.Root().UpsertFrom(src); err != nil {
+						// what was written before the refusal is still there to be looked at
+						steps = append(steps, "refused")
+					}
+					steps = append(steps, "find")
+					if s, err := b.Root().Find(kt.find); err == nil && s != nil {
+						steps = append(steps, "read")
+						nodeutil.WriteJSON(s)
+						steps = append(steps, "delete")
+						s.Delete()
+					}
+					steps = append(steps, "walk")
+					if ls, err := b.Root().Find("l"); err == nil && ls != nil {
+						it, err := ls.First()
+						for n := 0; err == nil && it.Selection != nil && n < 10; n++ {
+							it, err = it.Next()
+						}
+					}
+					steps = append(steps, "read-all")
+					nodeutil.WriteJSON(b.Root())
+					return nil
+				})
+				c.Evaluations++
+				c.Count("key_types", be)
+				c.Distinct("keytypes " + be + kt.typ + doc)
+				if e != nil {
+					c.Violation(core.Replay{Kind: "property-failure", Class: "key-type-" + be, Summary: fmt.Sprintf("%s, list keyed by %s, document %s: %v during %s", be, strings.TrimSuffix(kt.typ, ";"), doc, e, steps[len(steps)-1]),
+						Input: map[string]interface{}{"yang": y, "backend": be, "data": doc, "find": kt.find, "steps": steps}, Impl: e.Error(), Spec: "an answer or an error"})
+				}
+			}
+		}
+	}
+}
+
 func C13(c *core.Ctx) {
-	c.Rule = "requests against a valid compiled schema (typed generator: every leaf type, leaf-lists, containers, keyed lists, choices, imported grouping) and a reflection store holding a conforming tree, executed in a child process (a fatal error or hang is observed, not suffered): (a) JSON edit documents that disagree with the schema at every schema position (object/scalar/array/null swapped in for leaf, container and list; entry without key; key that is an object), as upsert; (b) valid JSON documents truncated, with one token deleted/duplicated/replaced, as upsert/insert/update/replace at the root and at inner paths; (c) the XML document of the tree with tokens or bytes mutated and elements swapped, as upsert; (d) Find paths: valid ones, a step below a leaf, a key on a non-list, missing/excess/garbled keys, bad escapes, '..' chains, module-qualified and unknown names, empty and huge segments; (e) query strings and XPath texts for where/filter built from token soup; (f) SetValue of 32 kinds of Go values (nil, all number widths, NaN/Inf, slices, maps, structs, channels, functions …) on every leaf; after every request a full read of the store must succeed. Named shape mismatches must be refused with an error. The JSON shape check is also run in the Lean model and the verdicts compared. non-trivial = request that is not a valid one; distinct by request"
+	c13keyTypes(c)
+	c.Rule = "requests against a valid compiled schema (typed generator: every leaf type, leaf-lists, containers, keyed lists, choices, imported grouping) and a reflection store holding a conforming tree, executed in a child process (a fatal error or hang is observed, not suffered): (a) JSON edit documents that disagree with the schema at every schema position (object/scalar/array/null swapped in for leaf, container and list; entry without key; key that is an object), as upsert; (b) valid JSON documents truncated, with one token deleted/duplicated/replaced, as upsert/insert/update/replace at the root and at inner paths; (c) the XML document of the tree with tokens or bytes mutated and elements swapped, as upsert; (d) Find paths: valid ones, a step below a leaf, a key on a non-list, missing/excess/garbled keys, bad escapes, '..' chains, module-qualified and unknown names, empty and huge segments; (e) query strings and XPath texts for where/filter built from token soup; (f) SetValue of 32 kinds of Go values (nil, all number widths, NaN/Inf, slices, maps, structs, channels, functions …) on every leaf; after every request a full read of the store must succeed. Named shape mismatches must be refused with an error. The JSON shape check is also run in the Lean model and the verdicts compared. non-trivial = request that is not a valid one; distinct by request; directed (c13keyTypes): lists keyed by ten kinds of type (union, bits, binary, enumeration, boolean, decimal64, identityref, uint64, empty, string) with and without an entry that lacks its key, on map-, slice- and struct-backed nodes: load, Find by key, read, delete, walk"
 	c.Assumptions = append(c.Assumptions,
 		"a hang is 20 s without an answer",
 		"the Lean theorems cover the shape verdict of JSON documents against a schema; for every other request kind this check can only exhibit crashes it finds (labelled partial)")
